@@ -152,6 +152,8 @@ func moduleSource(mods []*modSpec, i int) string {
 		binds = append(binds, bind)
 	}
 	b.WriteString("state := 0\n")
+	// the host can make the body fail half-way (after state, before the rest)
+	fmt.Fprintf(&b, "maybe_fail(%q)\n", m.Path)
 	fmt.Fprintf(&b, "name := %q\n", m.Path)
 	fmt.Fprintf(&b, "shared := %d\n", i)
 	b.WriteString("func bump() { state = state + 1; return state }\n")
@@ -248,7 +250,7 @@ func genC14(g *sim.Stream, f *sim.Stream) *c14Prog {
 			}
 		}
 		p.FaultMod = leaves[f.Intn(len(leaves))]
-		p.FaultKind = []string{"open-error", "read-error"}[f.Intn(2)]
+		p.FaultKind = []string{"open-error", "read-error", "body-error", "body-error"}[f.Intn(4)]
 		m := mods[p.FaultMod]
 		fmt.Fprintf(&b, "obs.append(try(func() { import %q as failing; return \"imported\" }, func(e) { return \"ERR\" }))\n", m.Path)
 		obs(`"ERR"`)
@@ -366,8 +368,28 @@ func init() {
 }
 
 type tickHost struct {
-	mu    sync.Mutex
-	ticks map[string]int
+	mu       sync.Mutex
+	ticks    map[string]int
+	failLeft map[string]int
+	failed   int
+}
+
+// failBuiltin fails the body of the named module while its budget lasts.
+func (t *tickHost) failBuiltin() *object.Builtin {
+	return object.NewBuiltin("maybe_fail", func(ctx context.Context, args ...object.Object) object.Object {
+		if len(args) == 1 {
+			if s, ok := args[0].(*object.String); ok {
+				t.mu.Lock()
+				defer t.mu.Unlock()
+				if t.failLeft[s.Value()] > 0 {
+					t.failLeft[s.Value()]--
+					t.failed++
+					return object.Errorf("module body failed (injected)")
+				}
+			}
+		}
+		return object.Nil
+	})
 }
 
 func (t *tickHost) builtin() *object.Builtin {
@@ -389,9 +411,13 @@ func runC14(rc *fw.RunCtx) {
 	mode := g.Intn(10) // 0: hostile spellings; 1,2: concurrent importers; else sequential
 	useLocal := g.Chance(1, 3)
 	prog := genC14(g, f)
-	th := &tickHost{ticks: map[string]int{}}
-	extra := map[string]any{"tick": th.builtin()}
+	th := &tickHost{ticks: map[string]int{}, failLeft: map[string]int{}}
+	extra := map[string]any{"tick": th.builtin(), "maybe_fail": th.failBuiltin()}
 	globals := baseGlobals(extra)
+	// a second evaluation sharing the importer (importers are documented as
+	// safe to share between VMs and evaluations) must not disturb the first
+	shared := mode >= 3 && g.Chance(1, 4)
+	th2 := &tickHost{ticks: map[string]int{}, failLeft: map[string]int{}}
 	var names []string
 	for k := range globals {
 		names = append(names, k)
@@ -505,15 +531,37 @@ func runC14(rc *fw.RunCtx) {
 			localFailLeft[filepath.Join(root, file)] = 1
 		} else if prog.FaultKind == "open-error" {
 			sfs.FailOpen[file] = 1
-		} else {
+		} else if prog.FaultKind == "read-error" {
 			sfs.FailRead[file] = 1
+		}
+		if prog.FaultKind == "body-error" {
+			localFailLeft = map[string]int{}
+			th.failLeft[prog.Mods[prog.FaultMod].Path] = 1
+			th2.failLeft[prog.Mods[prog.FaultMod].Path] = 1
+			// the body runs again on the retry: tolerated (the first import failed)
+			prog.Model.ticks[prog.FaultMod]++
 		}
 		rc.Hit("fault_import_" + prog.FaultKind)
 	}
 
 	ctx, cancel := context.WithCancel(context.Background())
 	out := evalTask(s, "main", ctx, main, opts)
-	s.Until = func() bool { return out.Done && len(aliveExcept(s, "vm.watcher")) == 0 }
+	var out2 *EvalOutcome
+	if shared {
+		if prog.FaultMod >= 0 && prog.FaultKind != "body-error" {
+			// the storage fault must hit each evaluation's first attempt: that is
+			// only well defined for one evaluation, so no storage fault here
+			shared = false
+		} else {
+			g2 := baseGlobals(map[string]any{"tick": th2.builtin(), "maybe_fail": th2.failBuiltin()})
+			opts2 := []risor.Option{risor.WithoutDefaultGlobals(), risor.WithGlobals(g2), risor.WithConcurrency(), risor.WithImporter(imp)}
+			out2 = evalTask(s, "main2", ctx, main, opts2)
+			rc.Hit("mode_shared_importer")
+		}
+	}
+	s.Until = func() bool {
+		return out.Done && (out2 == nil || out2.Done) && len(aliveExcept(s, "vm.watcher")) == 0
+	}
 	verdict := s.Run()
 	s.Shutdown(cancel)
 	rc.AbsorbSim(s, strat.Name())
@@ -586,8 +634,12 @@ func runC14(rc *fw.RunCtx) {
 	nimports := strings.Count(main, "import ")
 	rc.NonTrivial = nimports >= 2 || sfs.Injected > 0
 	var over []string
-	for _, m := range prog.Mods {
-		if th.ticks[m.Path] > 1 {
+	for i, m := range prog.Mods {
+		allowed := 1
+		if prog.Model.ticks[i] > 1 {
+			allowed = prog.Model.ticks[i] // a body that failed may run again on the retry
+		}
+		if th.ticks[m.Path] > allowed {
 			over = append(over, fmt.Sprintf("%s x%d", m.Path, th.ticks[m.Path]))
 		}
 	}
@@ -607,8 +659,28 @@ func runC14(rc *fw.RunCtx) {
 	}
 	// ---- clauses 3, 4, 5: shared state through every alias, distinct globals,
 	// clean retry after an injected failure
-	got := out.Result.Inspect()
+	if out2 != nil {
+		if out2.Panic != nil || out2.Err != nil {
+			rc.Violate("shared-importer/second-evaluation-failed", "a second evaluation sharing the importer failed: %s", out2.String())
+			return
+		}
+		for i, m := range prog.Mods {
+			if prog.Model.ticks[i] != th2.ticks[m.Path] {
+				rc.Violate("shared-importer/once", "second evaluation sharing the importer: module %s body ran %d times, model says %d", m.Path, th2.ticks[m.Path], prog.Model.ticks[i])
+				return
+			}
+		}
+		if g2 := safeInspect(out2.Result); g2 != expected {
+			rc.Violate("shared-importer/state", "second evaluation sharing the importer observed %s, import-once model says %s (first evaluation: %s)", g2, expected, out.String())
+			return
+		}
+	}
+	got := safeInspect(out.Result)
 	if got != expected {
+		if out2 != nil {
+			rc.Violate("shared-importer/state", "first of two evaluations sharing the importer observed %s, import-once model says %s", got, expected)
+			return
+		}
 		cls := "state/sequential"
 		if nworkers > 0 {
 			cls = "state/concurrent-importers"
